@@ -7,7 +7,7 @@
    contract (candidates of the resized crop / erasing, float32 products of the
    spec-augment mask, rounded fallback side).  A model result [Ok _] means: the code
    returned (did not raise) and consumed exactly the recorded draws. *)
-From Coq Require Import ZArith List Bool QArith.
+From Coq Require Import ZArith List Bool QArith Qabs.
 Import ListNotations.
 From KD Require Import C14.Model C14.Spec C14.Proofs.
 Open Scope Z_scope.
@@ -96,6 +96,25 @@ Theorem specaug_masked_indices_inside_axis : forall size m k, masked size m k = 
 Proof. exact masked_inside. Qed.
 Print Assumptions specaug_masked_indices_inside_axis.
 
+(* the float32 fact behind the assert of _mask_along_axis: u a float32 in [0, 1 - 2^-24], P an integer with
+   2^(e-1) < P <= 2^e <= 2^24 (twoe = 2^e), v = fl32(u * P) at least as close to u * P as the float32 just below P
+   (round to nearest): then v < P ... *)
+Theorem specaug_float32_product_below_param : forall (P twoe : Z) (u v : Q),
+  1 <= P -> P <= twoe -> twoe < 2 * P ->
+  (0 <= u)%Q -> (u <= 1 - 1 / inject_Z (2 ^ 24))%Q ->
+  (let x := u * inject_Z P in let pfl := inject_Z P - inject_Z twoe / inject_Z (2 ^ 24) in
+   Qabs (v - x) <= Qabs (pfl - x))%Q ->
+  (v < inject_Z P)%Q.
+Proof. exact fl32_product_below_param. Qed.
+Print Assumptions specaug_float32_product_below_param.
+
+(* ... and then the assertion mask_end - mask_start < mask_param holds, whatever the second product is *)
+Theorem specaug_assert_never_fires : forall P value minv,
+  1 <= P -> (0 <= value)%Q -> (value < inject_Z P)%Q ->
+  exists s e, mask_axis P value minv = Ok (Some (s, e)) /\ 0 <= e - s < P.
+Proof. exact mask_axis_assert_holds. Qed.
+Print Assumptions specaug_assert_never_fires.
+
 (* ---- semantic-segmentation pairs ---- *)
 Theorem semseg_same_geometry : forall ops x seg ds gs x' seg',
   same_geometry x seg -> semseg_run ops x seg ds = Ok (gs, x', seg') -> same_geometry x' seg'.
@@ -119,6 +138,40 @@ Theorem semseg_sources_in_bounds : forall H0 W0 ops x seg ds gs x' seg',
 Proof. exact semseg_run_sources. Qed.
 Print Assumptions semseg_sources_in_bounds.
 
+(* ---- nearest-neighbour resizes of a pair (KDSemsegResize / KDSemsegRandomResize) ---- *)
+(* image and mask resized with the same index maps stay aligned: at every output pixel an id-encoded image and the
+   mask show the same source pixel.  No contract on the maps is needed for alignment. *)
+Theorem semseg_resize_same_geometry : forall nh nw my mx x seg,
+  same_geometry x seg ->
+  same_geometry (apply_geom (GResize nh nw my mx) x) (apply_geom (GResize nh nw my mx) seg) /\
+  forall a b, gsrc (apply_geom (GResize nh nw my mx) x) a b = gsrc (apply_geom (GResize nh nw my mx) seg) a b.
+Proof. exact resize_same_geometry. Qed.
+Print Assumptions semseg_resize_same_geometry.
+
+(* a recorded map the model accepts (nominal index, or one below it at a tie) stays inside the source axis *)
+Theorem nearest_map_in_range : forall k n_in n_out m i, 0 < n_in -> nn_okb k n_in n_out m = true -> 0 <= i < n_out ->
+  0 <= nn_at m i < n_in.
+Proof. exact nn_okb_in_range. Qed.
+Print Assumptions nearest_map_in_range.
+
+(* image resized bilinearly / bicubically, mask nearest (the default of both transforms): where the mask's NOMINAL
+   source pixel m lies relative to the centre c = (i + 1/2) n_in / n_out - 1/2 the image interpolates around;
+   2 n_out (m - c) = 2 n_out m - (2 i + 1) n_in + n_out.
+   PIL inputs: |m - c| <= 1/2 (the mask shows the pixel containing the image's sampling centre).
+   tensor inputs: -1/2 - s/2 < m - c <= 1/2 - s/2, s = n_in / n_out: torch's legacy NEAREST is corner-anchored, the mask
+   lags the image by (s - 1) / 2 source pixels, i.e. by less than half an OUTPUT pixel; NEAREST_EXACT would be centred. *)
+Theorem nearest_vs_bilinear_grid_pil : forall n_in n_out i, 0 < n_out ->
+  let m := nn_nominal NPil n_in n_out i in
+  - n_out < 2 * n_out * m - (2 * i + 1) * n_in + n_out <= n_out.
+Proof. exact nn_grid_pil. Qed.
+Print Assumptions nearest_vs_bilinear_grid_pil.
+
+Theorem nearest_vs_bilinear_grid_torch : forall n_in n_out i, 0 < n_out ->
+  let m := nn_nominal NTorch n_in n_out i in
+  - n_out - n_in < 2 * n_out * m - (2 * i + 1) * n_in + n_out <= n_out - n_in.
+Proof. exact nn_grid_torch. Qed.
+Print Assumptions nearest_vs_bilinear_grid_torch.
+
 (* KDSemsegPad reaches the requested size, centred, with non-negative paddings *)
 Theorem semseg_pad_reaches_size : forall th tw H W,
   pad_nonneg (semseg_pad_params th tw H W) /\
@@ -132,6 +185,26 @@ Theorem multicrop_windows_in_bounds : forall ch cw H W l,
   Forall (fun p => in_bounds H W p /\ has_size ch cw p) l /\ l <> [].
 Proof. exact multicrop_ok. Qed.
 Print Assumptions multicrop_windows_in_bounds.
+
+(* the overlapping windows cover every pixel of the pair *)
+Theorem multicrop_windows_cover : forall ch cw H W l,
+  0 < ch -> 0 < cw -> 0 < H -> 0 < W ->
+  multicrop_windows ch cw H W = Ok l ->
+  forall y x, 0 <= y < H -> 0 <= x < W ->
+    exists top lft, In (top, lft, ch, cw) l /\ top <= y < top + ch /\ lft <= x < lft + cw.
+Proof. exact multicrop_covers. Qed.
+Print Assumptions multicrop_windows_cover.
+
+(* ---- two-crop overlap: symmetric in the two windows; in [0, 1]; 1 exactly for coinciding windows ---- *)
+Theorem two_crop_overlap_symmetric : forall p0 p1, overlap_parts p0 p1 = overlap_parts p1 p0.
+Proof. exact overlap_parts_sym. Qed.
+Print Assumptions two_crop_overlap_symmetric.
+
+Theorem two_crop_overlap_in_unit_interval : forall i0 j0 i1 j1 h w inter union, 0 < h -> 0 < w ->
+  overlap_parts (i0, j0, h, w) (i1, j1, h, w) = (inter, union) ->
+  0 <= inter <= union /\ 0 < union /\ (inter = union <-> (i0 = i1 /\ j0 = j1)).
+Proof. exact overlap_parts_unit. Qed.
+Print Assumptions two_crop_overlap_in_unit_interval.
 
 (* ---- patchify / unpatchify ---- *)
 Theorem unpatchify_patchify_id : forall A ph pw lw (t : t3 A) c y x,
@@ -165,6 +238,23 @@ Theorem patchify_indices_in_range : forall ph pw H W lh lw,
     0 <= y / ph * lw + x / pw < lh * lw /\ 0 <= y mod ph < ph /\ 0 <= x mod pw < pw.
 Proof. exact patchify_params_ok. Qed.
 Print Assumptions patchify_indices_in_range.
+
+(* ---- PatchwiseTransform: patchify -> per-patch transform -> unpatchify ---- *)
+(* output pixel (y, x) = pixel (y mod ph, x mod pw) of what the wrapped transform returns on its call number
+   l = (y / ph) * sw + x / pw, and that call receives exactly the ph x pw block of the input containing (y, x) *)
+Theorem patchwise_composition_index_map : forall A ph pw sw (f : Z -> p3 A -> p3 A) (t : t3 A) c y x,
+  0 < pw -> 0 <= x < sw * pw ->
+  let l := y / ph * sw + x / pw in
+  patchwise ph pw sw f t c y x =
+  f l (fun c' p q => t c' (y / ph * ph + p) (x / pw * pw + q)) c (y mod ph) (x mod pw).
+Proof. exact patchwise_index_map. Qed.
+Print Assumptions patchwise_composition_index_map.
+
+Theorem patchwise_identity_is_identity : forall A ph pw sw (t : t3 A) c y x,
+  0 < ph -> 0 < pw -> 0 <= x < sw * pw ->
+  patchwise ph pw sw (fun _ u => u) t c y x = t c y x.
+Proof. exact patchwise_identity. Qed.
+Print Assumptions patchwise_identity_is_identity.
 
 (* ---- patch shuffle: indexing with argsort of the recorded permutation undoes x[:, permutation] ---- *)
 Theorem unshuffle_shuffle_id : forall A perm (u : t4 A) c l p q,
@@ -237,3 +327,24 @@ Proof. split; [exact is_perm_example | vm_compute; reflexivity]. Qed.
 
 Example norm_nonvacuous : (kd_norm (1 # 2) (1 # 4) (3 # 4) == 1 /\ kd_denorm (1 # 2) (1 # 4) 1 == 3 # 4)%Q.
 Proof. split; vm_compute; reflexivity. Qed.
+
+Example nearest_maps_nonvacuous :
+  nn_okb NTorch 5 3 [0; 1; 3] = true /\ nn_okb NPil 5 3 [0; 2; 4] = true /\
+  nn_okb NPil 2 7 [0; 0; 0; 0; 1; 1; 1] = true /\      (* Pillow's map for 2 -> 7: entry 3 is a tie, nominally 1 *)
+  nn_okb NPil 2 7 [0; 0; 0; 1; 1; 1; 1] = true /\ nn_okb NTorch 5 3 [0; 2; 3] = false.
+Proof. vm_compute. repeat split; reflexivity. Qed.
+
+Example semseg_resize_nonvacuous :
+  exists gs x' seg',
+    semseg_run [SResize 2 3 NTorch [0; 2] [0; 1; 3]; SFlip true] (gimg_id 4 5) (gimg_id 4 5) [] = Ok (gs, x', seg') /\
+    gsrc x' 1 0 = Some (2, 3) /\ gsrc seg' 1 0 = Some (2, 3).
+Proof. do 3 eexists. vm_compute. repeat split; reflexivity. Qed.
+
+Example fl32_nonvacuous :     (* P = 3, e = 2: u = 1 - 2^-24, fl32(u * 3) = 3 - 2^-22 = the float just below 3 *)
+  (let P := inject_Z 3 in let u := 1 - 1 / inject_Z (2 ^ 24) in let v := P - inject_Z 4 / inject_Z (2 ^ 24) in
+   Qabs (v - u * P) <= Qabs (P - inject_Z 4 / inject_Z (2 ^ 24) - u * P) /\ v < P)%Q.
+Proof. vm_compute. split; [discriminate | reflexivity]. Qed.
+
+Example patchwise_nonvacuous :
+  patchwise 1 2 2 (fun l u c p q => u c p (1 - q) + 1000 * l) (fun c y x => 10 * y + x) 0 1 2 = 3013.
+Proof. vm_compute. reflexivity. Qed.
